@@ -489,8 +489,10 @@ int main(int argc, char** argv) {
                 deckObjects(rep, parser, python, deck, pc, witness, built);
             } else {
                 gdeck::Opts o;
+                o.exoticRunspec = rng.chance(0.6);     // optional phases, option flags, report mnemonics: the rarely set bits
                 gdeck::Generator gen(rng, o);
                 gdeck::Model m = gen.generate();
+                if (!m.runspecExtra.empty() || !m.solutionExtra.empty()) rep.count("models_with_optional_phases_or_flags");
                 m.summarySection = "WOPT\n/\nGOPT\n/\nFWCT\nWWCT\n/\nROIP\n/\nBPR\n 1 1 1 /\n/\n" + (m.wells.empty() ? std::string() : "COPR\n '" + m.wells[0].name + "' /\n/\n");
                 witness = m.text();
                 for (auto& st : m.steps) for (auto& k : st.kws) rep.cover("schedule_keyword", k.name);
